@@ -63,8 +63,58 @@ def run(tier, seed, replay=None):
                               {"kind": "oracle", "ops": LL[start:i + 1], "stderr": err[-1500:], "count": len(ab)}, tags={name + ":abort"})
     except vlib.BuildFailure as e:
         rep.violation("harness does not build against the current tree", {"kind": "build", "theorem_or_correspondence": "harness vs /repo/smt", "log": str(e)}, no_input=True)
+    # the parser on generated / mutated / truncated programs and on deeply nested input
+    parser = {}
+    try:
+        parser = c16.parser_part(rep, tier, seed + 2000)
+        exe = vlib.build_harness("riddle_parse", ["riddle_parse.cpp"], ["riddle/riddle_parser.cpp", "riddle/riddle_lexer.cpp", "smt/arith/rational.cpp"], inc=vlib.SMT_INC + ["riddle"])
+        deep = {}
+        for name, mk in (("parentheses", lambda n: "real x = " + "(" * n + "1.0" + ")" * n + ";"),
+                         ("negations", lambda n: "bool b = " + "!" * n + "true;"),
+                         ("blocks", lambda n: "{ x; } or " * n + "{ x; }"),
+                         ("minus", lambda n: "real x = " + "-" * n + "1.0;")):
+            lo = None
+            for n in (100, 1000, 10000, 100000, 1000000):
+                o, _ = vlib.run_lines(vlib.impl_cmd(exe), ["parse " + mk(n).encode().hex()], timeout=120)
+                if o[0] is None or not (o[0].startswith("(unit") or o[0].startswith("error:")):
+                    lo = (n, o[0])
+                    break
+            deep[name] = "ok up to 10^6" if lo is None else f"abnormal at nesting {lo[0]}: {str(lo[1])[:60]}"
+            if lo is not None:
+                rep.violation(f"parser: input with {lo[0]} nested {name} ends abnormally ({str(lo[1])[:80]}) instead of being accepted or rejected with an error",
+                              {"kind": "oracle", "ops": ["parse " + mk(lo[0]).encode().hex()], "text": mk(20) + "  (nesting " + str(lo[0]) + ")", "impl": [lo[1]]},
+                              tags={"parser-recursion-depth"})
+        parser["deep_nesting"] = deep
+    except vlib.BuildFailure as e:
+        rep.violation("harness does not build against the current tree", {"kind": "build", "theorem_or_correspondence": "harness/riddle_parse.cpp vs /repo/riddle", "log": str(e)}, no_input=True)
+    # whole well-typed programs through read() + solve(), Debug (assertions on) and Release
+    whole = {}
+    try:
+        from .. import rgen, tlgen, plgen, oogen
+        from . import e2e
+        fams = [("constraints", lambda r: rgen.constraint_program(r, core=(r.random() < 0.5))[0]), ("state-variable", lambda r: tlgen.sv_program(r)[0]),
+                ("reusable-resource", lambda r: tlgen.rr_program(r)[0]), ("interval", lambda r: tlgen.interval_program(r)[0]),
+                ("planning", lambda r: plgen.program(r)[0]), ("objects", lambda r: oogen.program(r)[0])]
+        nprog = 900 if tier == "quick" else 9000
+        progs = [(fams[i % 6][0], fams[i % 6][1](rng)) for i in range(nprog)]
+        for cfg in e2e.cfgs(tier):
+            outs = e2e.solve_all(cfg, [t for _, t in progs])
+            st = {}
+            worst = None
+            for (fam, t), o in zip(progs, outs):
+                v = e2e.verdict(o)
+                k = v.split(":")[0] if v != "X:HANG" else "budget"
+                st[k] = st.get(k, 0) + 1
+                if k == "X" and (worst is None or len(t) < len(worst[0])):
+                    worst = (t, o, fam, v)
+            whole[cfg] = st
+            if worst:
+                rep.violation(f"[{cfg}] a well-typed {worst[2]} program ends abnormally: {worst[3][:200]}", e2e.replay_of(worst[0], cfg, worst[1]), tags={"program:abnormal:" + cfg})
+    except vlib.BuildFailure as e:
+        rep.violation("the solver does not build in a supported configuration", {"kind": "build", "theorem_or_correspondence": "cmake build of /repo", "log": str(e)}, no_input=True)
+    rep.cov.update({"parser": parser, "whole_programs": whole})
     rep.cov.update({
-        "evaluations": r["strings"] + sum(v[0] for v in hist.values()), "distinct_nontrivial": r["distinct"],
+        "evaluations": r["strings"] + sum(v[0] for v in hist.values()) + parser.get("programs", 0) + sum(sum(x.values()) for x in whole.values()), "distinct_nontrivial": r["distinct"],
         "rule": "byte strings as in C16 (keywords, operators, numerals beyond the integer type, unterminated strings and comments, invalid bytes, truncated and mutated example files, random soups) under a 2 s watchdog, plus the API histories of C07 and C10 replayed with assertions on (sanitizers in the thorough tier); distinct = distinct byte strings",
         "samples": ["\"unterminated", "/* never", "12345678901234567890"],
         "lexer_inputs": r["strings"], "lexer_result_kinds": r["kinds"], "lexer_abnormal": len(r["abn"]),
